@@ -150,7 +150,7 @@ class KernelEvalBase2:
         """
         nspin, N0, Nsamp = X0T.shape
         N1 = self.N1
-        if force_polarize and dfdX1.shape[0] == 2 and nspin == 1:
+        if force_polarize and self.mode == "POL" and nspin == 1:
             dfdX1 = dfdX1[:1]
         if self.mode == "SEP" or self.mode == "POL":
             dfdX0T = np.zeros_like(X0T)
